@@ -102,7 +102,13 @@ func verifRefScan(src []rune, pos int, expSym, expMeta bool) verifRefTok {
 			for pos < n && !verifIn("{}=,", src[pos]) {
 				pos++
 			}
-			return verifRefTok{kind: METADATA, text: src[st:pos], pos: pos, expSym: expSym, expMeta: expMeta}
+			// the key / value text: white space is dropped at both ends (before it like before
+			// any token, after it so that `{key = Am}` is `{key=Am}`), kept inside
+			end := pos
+			for end > st && unicode.IsSpace(src[end-1]) {
+				end--
+			}
+			return verifRefTok{kind: METADATA, text: src[st:end], pos: pos, expSym: expSym, expMeta: expMeta}
 		}
 		symRune := func(r rune) bool { return !verifIn("/[_;=", r) && !unicode.IsSpace(r) }
 		if expSym {
